@@ -1,9 +1,10 @@
 import Gv.Oracle.Cli
 import Gv.Oracle.CliSplit
+import Gv.Oracle.CliExtract
 import Gv.Oracle.Det
 import Gv.Oracle.Sites
 import Gv.Oracle.Loop
 /-! oracle of property C04: only the handlers it needs -/
 open Gv Gv.Oracle
 
-def main : IO Unit := runOracle [SitesOps.handle, DetOps.handle, CliSplitOps.handle, CliOps.handle]
+def main : IO Unit := runOracle [SitesOps.handle, DetOps.handle, CliSplitOps.handle, CliExtractOps.handle, CliOps.handle]
